@@ -324,8 +324,15 @@ def _dead_fallback(model: Model, folder: Folder, fi: FuncInfo, value: ast.AST) -
             kinds.add(folder.fold(v.elts[0], fi.module, fi.cls))
     excluded = set()
     for t, pol in flat_guards(fi.node, value):
-        if not pol and isinstance(t, ast.Compare) and len(t.ops) == 1 and isinstance(t.ops[0], ast.Eq) and isinstance(t.left, ast.Name) and t.left.id == kind_vars[0]:
+        if pol or not (isinstance(t, ast.Compare) and len(t.ops) == 1 and isinstance(t.left, ast.Name) and t.left.id == kind_vars[0]):
+            continue
+        if isinstance(t.ops[0], ast.Eq):
             excluded.add(folder.fold(t.comparators[0], fi.module, fi.cls))
+        elif isinstance(t.ops[0], ast.In):
+            # `kind in ('string', 'inet')`: one branch for several kinds
+            several = folder.fold(t.comparators[0], fi.module, fi.cls)
+            if isinstance(several, (tuple, list, set, frozenset)):
+                excluded.update(several)
     return bool(kinds) and kinds <= excluded
 
 
@@ -372,7 +379,19 @@ def _r3_keys(model: Model, run: Run, folder: Folder) -> None:
             names = [e.value for e in name.elts if isinstance(e, ast.Constant)]
         for nm in names:
             seen.setdefault(nm, []).append(code)
-    handled = {'boolean', 'integer', 'string', 'list', 'multiple', 'inet'}
+    handled = set()
+    gen = model.func(ac.qualname + '._generate_json')
+    if gen is None:
+        run.cannot('AttributeCollection._generate_json not found')
+        return
+    for t in ast.walk(gen.node):
+        # the ladder over the kind: `how == 'string'` or `how in ('string', 'inet')`
+        if isinstance(t, ast.Compare) and len(t.ops) == 1 and isinstance(t.left, ast.Name):
+            got = folder.fold(t.comparators[0], gen.module, gen.cls)
+            if isinstance(t.ops[0], ast.Eq) and isinstance(got, str):
+                handled.add(got)
+            elif isinstance(t.ops[0], ast.In) and isinstance(got, (tuple, list, set, frozenset)):
+                handled.update(x for x in got if isinstance(x, str))
     run.check(kinds <= handled, ac.qualname, 'representation kinds %s are all handled by _generate_json' % sorted(kinds), ac.loc(), 'an unhandled kind falls into the unescaped fallback branch')
     for nm, codes in sorted(seen.items()):
         if len(codes) == 1:
